@@ -1,27 +1,68 @@
 // Unit c33_signatures -- property C33 "Only valid signatures authorize a transaction"
+// The cryptographic primitives (ed25519_dalek, secp256k1: third-party, C/assembly) are an ASSUMED ORACLE:
+//   uninterpreted valid_ed / valid_secp / recovered + "a recovered key verifies" (env).  Everything below is
+//   decided RELATIVE to that oracle.
+// Real code under contract (bodies verbatim, radix-transactions/src/validation/signature_validator.rs):
+//   verify_and_recover, verify,
+//   PendingIntentSignatureValidations::{intent_signature_validations, notary_signature_validations},
+//   PendingSubintentSignatureValidations::for_subintent,
+//   AllPendingSignatureValidations::{new_with_root, add_non_root, validate_all, validate_signatures},
+//   SignedIntentTreeStructure::construct_pending_signature_validations (trait default method),
+//   + TransactionValidationConfig::allow_notary_to_duplicate_signer, TransactionValidationErrorLocation::for_root,
+//     SignatureValidationError::located, <PublicKey as From<Secp256k1PublicKey / Ed25519PublicKey>>::from.
+// Not covered: the primitives themselves; transaction preparation and hash computation (so the "altering any
+//   byte" clause of C33); the callers that fill in PendingIntentSignatureValidations (validate_notarized_v1 and
+//   the root_signatures / non_root_subintent_signatures impls for the Prepared*V2 types, whose structs are
+//   macro-generated); what the callers do with the returned signer keys.
 use vstd::prelude::*;
 verus! {
 /*@include shims/rt.rs @*/
 /*@include shims/maps.rs @*/
 /*@include shims/sets.rs @*/
 /*@include shims/vec_into_iter_map_c33.rs @*/
+/*@include shims/exact_iter_zip_c33.rs @*/
 
 pub mod env {
     use vstd::prelude::*;
+    use super::exact_iter::*;
 
     // ---- key / signature / hash material: fixed-size byte strings whose content is never inspected
-    // by the code under contract (hand-declared: the real definitions carry serde field attributes and
-    // `[u8; Self::LENGTH]`; only identity (==) and Copy matter here)
-    #[derive(Clone, Copy)]
-    pub struct Hash(pub [u8; 32]);
-    #[derive(Clone, Copy)]
-    pub struct Ed25519PublicKey(pub [u8; 32]);
-    #[derive(Clone, Copy)]
-    pub struct Secp256k1PublicKey(pub [u8; 33]);
-    #[derive(Clone, Copy)]
-    pub struct Ed25519Signature(pub [u8; 64]);
-    #[derive(Clone, Copy)]
-    pub struct Secp256k1Signature(pub [u8; 65]);
+    // by the code under contract (all verbatim; only identity (==) and Copy matter here)
+    /*@item radix-common/src/crypto/hash.rs :: struct Hash
+    @derive Clone, Copy
+    @*/
+    impl Hash {
+        /*@item radix-common/src/crypto/hash.rs :: impl Hash :: const LENGTH
+        @*/
+    }
+    /*@item radix-common/src/crypto/ed25519/public_key.rs :: struct Ed25519PublicKey
+    @derive Clone, Copy
+    @*/
+    impl Ed25519PublicKey {
+        /*@item radix-common/src/crypto/ed25519/public_key.rs :: impl Ed25519PublicKey :: const LENGTH
+        @*/
+    }
+    /*@item radix-common/src/crypto/secp256k1/public_key.rs :: struct Secp256k1PublicKey
+    @derive Clone, Copy
+    @*/
+    impl Secp256k1PublicKey {
+        /*@item radix-common/src/crypto/secp256k1/public_key.rs :: impl Secp256k1PublicKey :: const LENGTH
+        @*/
+    }
+    /*@item radix-common/src/crypto/ed25519/signature.rs :: struct Ed25519Signature
+    @derive Clone, Copy
+    @*/
+    impl Ed25519Signature {
+        /*@item radix-common/src/crypto/ed25519/signature.rs :: impl Ed25519Signature :: const LENGTH
+        @*/
+    }
+    /*@item radix-common/src/crypto/secp256k1/signature.rs :: struct Secp256k1Signature
+    @derive Clone, Copy
+    @*/
+    impl Secp256k1Signature {
+        /*@item radix-common/src/crypto/secp256k1/signature.rs :: impl Secp256k1Signature :: const LENGTH
+        @*/
+    }
 
     /*@item radix-common/src/crypto/public_key.rs :: enum PublicKey
     @derive Clone, Copy
@@ -118,6 +159,35 @@ pub mod env {
     /*@item radix-transactions/src/errors.rs :: enum TransactionValidationError
     @derive None
     @*/
+
+    // ---- the environment traits (same rewrite as in unit c35_intent_structure) -------------------------
+    // Same names and method names as in /repo (model/concepts.rs, validation/transaction_structure_validator.rs).
+    // Differences: (1) the opaque `impl ExactSizeIterator<Item = ..>` return type is the shim iterator type of
+    // shims/exact_iter_zip_c33.rs (Verus has no return-position impl Trait in traits); (2) methods the function
+    // under contract never calls (children, validate_intent) are left out; (3) each method is ASSUMED to be a
+    // pure observation of `self`, named by a spec fn (true of the impls in transaction_validator_v2.rs, which
+    // read fields / cached hashes of prepared transactions).
+    pub trait HasSubintentHash {
+        spec fn subintent_hash_spec(&self) -> SubintentHash;
+        fn subintent_hash(&self) -> (r: SubintentHash)
+            ensures r == self.subintent_hash_spec();
+    }
+    pub trait IntentStructure {
+        spec fn intent_hash_spec(&self) -> IntentHash;
+        fn intent_hash(&self) -> (r: IntentHash)
+            ensures r == self.intent_hash_spec();
+    }
+    pub trait IntentTreeStructure {
+        type RootIntentStructure: IntentStructure;
+        type SubintentStructure: IntentStructure + HasSubintentHash;
+        spec fn root_spec(&self) -> Self::RootIntentStructure;
+        spec fn subs_spec(&self) -> Seq<Self::SubintentStructure>;
+        fn root(&self) -> (r: &Self::RootIntentStructure)
+            ensures *r == self.root_spec();
+        fn non_root_subintents(&self) -> (r: SeqIter<&Self::SubintentStructure>)
+            ensures r.rest().len() == self.subs_spec().len(),
+                    forall|i: int| 0 <= i < self.subs_spec().len() ==> *(#[trigger] r.rest()[i]) == self.subs_spec()[i];
+    }
 }
 
 pub mod unit {
@@ -127,6 +197,7 @@ pub mod unit {
     use super::maps::*;
     use super::sets::*;
     use super::vec_into_iter_map::*;
+    use super::exact_iter::*;
 
     impl vstd::std_specs::convert::FromSpecImpl<Secp256k1PublicKey> for PublicKey {
         open spec fn obeys_from_spec() -> bool { true }
@@ -716,6 +787,202 @@ pub mod unit {
         requires counted(a), true_total(a) > a.config.max_total_signature_validations, all_err(a, e)
         ensures e == located(TransactionValidationErrorLocation::AcrossTransaction, too_many(true_total(a) as usize, a.config.max_total_signature_validations))
     {}
+
+    // ------------------------------------------------------------------------------------------
+    // Pairing every subintent's signature batch with THAT subintent's hash
+    // ------------------------------------------------------------------------------------------
+    impl SignatureValidationError {
+        /*@fn radix-transactions/src/errors.rs :: impl SignatureValidationError :: fn located
+        @sig
+            ensures ret == located(location, self)
+        @*/
+    }
+    /// the pending validations of non-root subintent i: its signature batch, to be verified over ITS hash
+    pub open spec fn non_root_entry<'a>(batch: PendingSubintentSignatureValidations<'a>, h: SubintentHash, i: int) -> (Pending<'a>, Loc) {
+        (for_subintent_spec(batch, h), TransactionValidationErrorLocation::NonRootSubintent(SubintentIndex(i as usize), h))
+    }
+
+    pub type Batches<'a> = Seq<PendingSubintentSignatureValidations<'a>>;
+    /// the hashes of the non-root subintents of the intent tree, in order
+    pub open spec fn sub_hashes<T: IntentTreeStructure>(t: T) -> Seq<SubintentHash> {
+        Seq::new(t.subs_spec().len(), |i: int| t.subs_spec()[i].subintent_hash_spec())
+    }
+    pub open spec fn root_loc_of<T: IntentTreeStructure>(t: T) -> Loc { root_location(t.root_spec().intent_hash_spec()) }
+    pub open spec fn entry<'a>(bs: Batches<'a>, hs: Seq<SubintentHash>, i: int) -> (Pending<'a>, Loc) { non_root_entry(bs[i], hs[i], i) }
+    pub open spec fn entries_upto<'a>(bs: Batches<'a>, hs: Seq<SubintentHash>, n: int) -> Seq<(Pending<'a>, Loc)> {
+        Seq::new(n as nat, |i: int| entry(bs, hs, i))
+    }
+    /// the documented error: root intent over the per-intent limit, then batch-count mismatch, then the first
+    /// subintent (in order) over the per-intent limit
+    pub open spec fn construct_err(root: Pending, root_loc: Loc, bs: Batches, hs: Seq<SubintentHash>, cfg: Cfg, e: TransactionValidationError) -> bool {
+        let n = bs.len() as int; let max = cfg.max_signer_signatures_per_intent;
+        if claims(root).len() > max { e == located(root_loc, too_many(claims(root).len() as usize, max)) }
+        else if hs.len() != n { e == located(TransactionValidationErrorLocation::AcrossTransaction, SignatureValidationError::IncorrectNumberOfSubintentSignatureBatches) }
+        else {
+            exists|j: int| 0 <= j < n && (forall|i: int| 0 <= i < j ==> claims((#[trigger] entry(bs, hs, i)).0).len() <= max)
+                && claims((#[trigger] entry(bs, hs, j)).0).len() > max
+                && e == located(entry(bs, hs, j).1, too_many(claims(entry(bs, hs, j).0).len() as usize, max))
+        }
+    }
+    pub proof fn lemma_entries_step(bs: Batches, hs: Seq<SubintentHash>, n: int)
+        requires 0 <= n
+        ensures entries_upto(bs, hs, n + 1) == entries_upto(bs, hs, n).push(entry(bs, hs, n)),
+                sum_counts(entries_upto(bs, hs, n + 1)) == sum_counts(entries_upto(bs, hs, n)) + claims(entry(bs, hs, n).0).len(),
+    {
+        assert(entries_upto(bs, hs, n + 1) =~= entries_upto(bs, hs, n).push(entry(bs, hs, n)));
+        assert(entries_upto(bs, hs, n + 1).drop_last() =~= entries_upto(bs, hs, n));
+    }
+    pub proof fn lemma_entries_mono(bs: Batches, hs: Seq<SubintentHash>, n: int, m: int)
+        requires 0 <= n <= m
+        ensures 0 <= sum_counts(entries_upto(bs, hs, n)) <= sum_counts(entries_upto(bs, hs, m))
+        decreases m - n
+    {
+        lemma_sum_counts_nonneg(entries_upto(bs, hs, n));
+        if n < m { lemma_entries_step(bs, hs, n); lemma_entries_mono(bs, hs, n + 1, m); }
+    }
+
+    pub trait SignedIntentTreeStructure {
+        type IntentTree: IntentTreeStructure;
+        // the four required methods: ASSUMED pure observations of `self` (see env); `impl ExactSizeIterator<Item = ..>` => SeqIter<..>
+        spec fn root_signatures_spec<'a>(&'a self) -> PendingIntentSignatureValidations<'a>;
+        spec fn batches_spec<'a>(&'a self) -> Seq<PendingSubintentSignatureValidations<'a>>;
+        spec fn intent_tree_spec(&self) -> Self::IntentTree;
+        spec fn version_spec(&self) -> TransactionVersion;
+        fn root_signatures(&self) -> (r: PendingIntentSignatureValidations<'_>)
+            ensures r == self.root_signatures_spec();
+        fn non_root_subintent_signatures(&self) -> (r: SeqIter<PendingSubintentSignatureValidations<'_>>)
+            ensures r.rest() == self.batches_spec();
+        fn intent_tree(&self) -> (r: &Self::IntentTree)
+            ensures *r == self.intent_tree_spec();
+        fn transaction_version(&self) -> (r: TransactionVersion)
+            ensures r == self.version_spec();
+
+        /*@fn radix-transactions/src/validation/signature_validator.rs :: trait SignedIntentTreeStructure :: fn construct_pending_signature_validations
+        @sig
+            requires
+                claims(self.root_signatures_spec()).len() + notary_count(self.root_signatures_spec())
+                    + sum_counts(entries_upto(self.batches_spec(), sub_hashes(self.intent_tree_spec()), self.batches_spec().len() as int)) <= usize::MAX,
+            ensures
+                ret is Ok <==> claims(self.root_signatures_spec()).len() <= config.max_signer_signatures_per_intent
+                    && self.intent_tree_spec().subs_spec().len() == self.batches_spec().len()
+                    && forall|i: int| 0 <= i < self.batches_spec().len() ==>
+                        claims((#[trigger] entry(self.batches_spec(), sub_hashes(self.intent_tree_spec()), i)).0).len() <= config.max_signer_signatures_per_intent,
+                ret matches Ok(a) ==> a.transaction_version == self.version_spec() && *a.config == *config
+                    && a.root == (self.root_signatures_spec(), root_loc_of(self.intent_tree_spec()))
+                    && a.non_roots@ == entries_upto(self.batches_spec(), sub_hashes(self.intent_tree_spec()), self.batches_spec().len() as int)
+                    && counted(a),
+                ret matches Err(e) ==> construct_err(self.root_signatures_spec(), root_loc_of(self.intent_tree_spec()), self.batches_spec(), sub_hashes(self.intent_tree_spec()), *config, e),
+        @entry
+            let ghost bs = self.batches_spec();
+            let ghost hs = sub_hashes(self.intent_tree_spec());
+            let ghost root = self.root_signatures_spec();
+            let ghost n = bs.len() as int;
+            proof { lemma_entries_mono(bs, hs, 0, n); assert(entries_upto(bs, hs, 0) =~= Seq::<(Pending, Loc)>::empty()); }
+        @loop 1 iter it
+            invariant
+                bs == self.batches_spec(), hs == sub_hashes(self.intent_tree_spec()), root == self.root_signatures_spec(),
+                n == bs.len(), n == hs.len(),
+                0 <= it.index@ <= n,
+                it.snapshot@.rest().len() == n,
+                forall|i: int| 0 <= i < n ==> (#[trigger] it.snapshot@.rest()[i]).0 == i
+                    && *it.snapshot@.rest()[i].1.0 == self.intent_tree_spec().subs_spec()[i] && it.snapshot@.rest()[i].1.1 == bs[i],
+                claims(root).len() + notary_count(root) + sum_counts(entries_upto(bs, hs, n)) <= usize::MAX,
+                pending_signatures.transaction_version == self.version_spec(), *pending_signatures.config == *config,
+                pending_signatures.root == (root, root_loc_of(self.intent_tree_spec())),
+                pending_signatures.non_roots@ == entries_upto(bs, hs, it.index@ as int),
+                counted(pending_signatures),
+                forall|i: int| 0 <= i < it.index@ ==> claims((#[trigger] entry(bs, hs, i)).0).len() <= config.max_signer_signatures_per_intent,
+        @before <<pending_signatures.add_non_root(>> #1
+            proof { lemma_entries_step(bs, hs, it.index@ as int); lemma_entries_mono(bs, hs, it.index@ as int + 1, n); }
+        @*/
+    }
+
+    // ------------------------------------------------------------------------------------------
+    // C33 end to end (relative to the crypto oracle): what an accepted transaction guarantees
+    // ------------------------------------------------------------------------------------------
+    /// Root transaction intent: validate_all returned Ok(s)  ==>  the notary signature verifies over the
+    /// SIGNED-INTENT hash, every intent signature verifies over the TRANSACTION-INTENT hash, and the root signer
+    /// set is exactly {keys some intent signature verified as} + {notary key iff notary_is_signatory}; its
+    /// iteration order has no duplicates.
+    pub proof fn lemma_c33_root(a: AllPending, s: SignatureValidationSummary, k: PublicKey)
+        requires all_ok(a), summary_of(a, s),
+                 a.root.0 is TransactionIntent,
+        ensures
+            a.root.0 matches PendingIntentSignatureValidations::TransactionIntent { notary_is_signatory, notary_public_key, notary_signature, notarized_hash, intent_signatures, signed_hash } ==> {
+                &&& sig_valid(notarized_hash.0, notary_public_key, notary_signature)
+                &&& forall|i: int| 0 <= i < intent_signatures@.len() ==> ((#[trigger] signer_of(signed_hash.0, intent_signatures@[i].0)) matches Some(pk)
+                        && sig_valid(signed_hash.0, pk, detached(intent_signatures@[i].0)))
+                &&& s.root_signer_keys@.contains(k) <==>
+                        ((exists|i: int| 0 <= i < intent_signatures@.len() && #[trigger] signer_of(signed_hash.0, intent_signatures@[i].0) == Some(k))
+                         || (notary_is_signatory && k == notary_public_key))
+                &&& s.root_signer_keys.order().no_duplicates()
+            },
+    {
+        let p = a.root.0; let c = claims(p);
+        lemma_signer_set(p, *a.config, a.transaction_version);
+        lemma_order_contains(&s.root_signer_keys, k);
+        assert(signer_seq(p).contains(k) <==> ((exists|i: int| 0 <= i < c.len() && #[trigger] c[i] == Some(k)) || notary_signer(p) == Some(k)));
+        match p {
+            PendingIntentSignatureValidations::TransactionIntent { notary_is_signatory, notary_public_key, notary_signature, notarized_hash, intent_signatures, signed_hash } => {
+                assert forall|i: int| 0 <= i < intent_signatures@.len() implies ((#[trigger] signer_of(signed_hash.0, intent_signatures@[i].0)) matches Some(pk)
+                        && sig_valid(signed_hash.0, pk, detached(intent_signatures@[i].0))) by {
+                    assert(c[i] is Some);
+                    lemma_intent_signatures_verify(p, i);
+                }
+                if exists|i: int| 0 <= i < c.len() && #[trigger] c[i] == Some(k) {
+                    let i = choose|i: int| 0 <= i < c.len() && #[trigger] c[i] == Some(k);
+                    assert(signer_of(signed_hash.0, intent_signatures@[i].0) == Some(k));
+                }
+                if exists|i: int| 0 <= i < intent_signatures@.len() && #[trigger] signer_of(signed_hash.0, intent_signatures@[i].0) == Some(k) {
+                    let i = choose|i: int| 0 <= i < intent_signatures@.len() && #[trigger] signer_of(signed_hash.0, intent_signatures@[i].0) == Some(k);
+                    assert(c[i] == Some(k));
+                }
+            }
+            _ => {}
+        }
+    }
+    /// Non-root subintent i of a transaction assembled by construct_pending_signature_validations (batches `bs`,
+    /// subintent hashes `hs`): validate_all returned Ok(s)  ==>  every signature of batch i verifies over the hash
+    /// of subintent i (not of any other intent), and signer set i is exactly the keys they verified as.
+    pub proof fn lemma_c33_subintent(a: AllPending, bs: Batches, hs: Seq<SubintentHash>, s: SignatureValidationSummary, i: int, k: PublicKey)
+        requires all_ok(a), summary_of(a, s),
+                 a.non_roots@ == entries_upto(bs, hs, bs.len() as int), 0 <= i < bs.len(),
+        ensures
+            bs[i] matches PendingSubintentSignatureValidations::Subintent { intent_signatures } ==> {
+                &&& forall|j: int| 0 <= j < intent_signatures@.len() ==> ((#[trigger] signer_of(hs[i].0, intent_signatures@[j].0)) matches Some(pk)
+                        && sig_valid(hs[i].0, pk, detached(intent_signatures@[j].0)))
+                &&& s.non_root_signer_keys@[i]@.contains(k) <==>
+                        (exists|j: int| 0 <= j < intent_signatures@.len() && #[trigger] signer_of(hs[i].0, intent_signatures@[j].0) == Some(k))
+                &&& s.non_root_signer_keys@[i].order().no_duplicates()
+            },
+    {
+        assert(a.non_roots@[i] == entry(bs, hs, i));
+        let p = a.non_roots@[i].0; let c = claims(p);
+        assert(sigs_ok(p, *a.config, a.transaction_version));
+        lemma_signer_set(p, *a.config, a.transaction_version);
+        lemma_order_contains(&s.non_root_signer_keys@[i], k);
+        assert(s.non_root_signer_keys@[i].order() == signer_seq(p));
+        assert(signer_seq(p).contains(k) <==> ((exists|j: int| 0 <= j < c.len() && #[trigger] c[j] == Some(k)) || notary_signer(p) == Some(k)));
+        match bs[i] {
+            PendingSubintentSignatureValidations::Subintent { intent_signatures } => {
+                assert(p == PendingIntentSignatureValidations::Subintent { intent_signatures, signed_hash: hs[i] });
+                assert forall|j: int| 0 <= j < intent_signatures@.len() implies ((#[trigger] signer_of(hs[i].0, intent_signatures@[j].0)) matches Some(pk)
+                        && sig_valid(hs[i].0, pk, detached(intent_signatures@[j].0))) by {
+                    assert(c[j] is Some);
+                    lemma_intent_signatures_verify(p, j);
+                }
+                if exists|j: int| 0 <= j < c.len() && #[trigger] c[j] == Some(k) {
+                    let j = choose|j: int| 0 <= j < c.len() && #[trigger] c[j] == Some(k);
+                    assert(signer_of(hs[i].0, intent_signatures@[j].0) == Some(k));
+                }
+                if exists|j: int| 0 <= j < intent_signatures@.len() && #[trigger] signer_of(hs[i].0, intent_signatures@[j].0) == Some(k) {
+                    let j = choose|j: int| 0 <= j < intent_signatures@.len() && #[trigger] signer_of(hs[i].0, intent_signatures@[j].0) == Some(k);
+                    assert(c[j] == Some(k));
+                }
+            }
+            _ => {}
+        }
+    }
 }
 } // verus!
 fn main() {}
